@@ -82,7 +82,7 @@ example : computeUnionSelectors 128 = some (List.range 128) := (selectors_are_in
       - `transparent`: exactly one field lacks `skip_deserializing`;
     * an `enum` carries no `struct_behaviour` and declares one of
       - `union`: every variant has exactly one unnamed field; 1 to 128 variants;
-      - `tag`: no variant has fields; 1 to 128 variants;
+      - `tag`: every variant is a unit variant (no fields, not written `V()` or `V {}`); 1 to 128 variants;
       - `transparent`: every variant has exactly one unnamed field. -/
 def HasSszMeaning : Def → Prop
   | .struct_ beh hasEnumAttr fields =>
@@ -98,7 +98,8 @@ def HasSszMeaning : Def → Prop
        | some .union =>
            (∀ v ∈ variants, v.fields.length = 1 ∧ v.named = false) ∧
              1 ≤ variants.length ∧ variants.length ≤ 128
-       | some .tag => (∀ v ∈ variants, v.fields = []) ∧ 1 ≤ variants.length ∧ variants.length ≤ 128
+       | some .tag => (∀ v ∈ variants, v.fields = [] ∧ v.named = false ∧ v.parens = false) ∧
+             1 ≤ variants.length ∧ variants.length ≤ 128
        | some .transparent => ∀ v ∈ variants, v.fields.length = 1 ∧ v.named = false
        | some .invalid => False
        | none => False)
@@ -154,8 +155,12 @@ theorem accepts_iff (d : Def) : accepts d = true ↔ HasSszMeaning d := by
         simp only [accepts, acceptsEncode, acceptsDecode, HasSszMeaning, Bool.and_eq_true,
           Bool.not_eq_true', List.all_eq_true, List.isEmpty_iff, selectors_isSome]
         constructor
-        · rintro ⟨⟨h1, h2, h3⟩, _⟩; exact ⟨h1, h2, h3⟩
-        · rintro ⟨h1, h2, h3⟩; exact ⟨⟨h1, h2, h3⟩, h1, h2, h3⟩
+        · rintro ⟨⟨h1, h2, h3⟩, _⟩
+          exact ⟨h1, fun v hv => ⟨((h2 v hv).1).1, ((h2 v hv).1).2, (h2 v hv).2⟩, h3⟩
+        · rintro ⟨h1, h2, h3⟩
+          have h2' : ∀ v ∈ variants, (v.fields = [] ∧ v.named = false) ∧ v.parens = false :=
+            fun v hv => ⟨⟨(h2 v hv).1, (h2 v hv).2.1⟩, (h2 v hv).2.2⟩
+          exact ⟨⟨h1, h2', h3⟩, h1, h2', h3⟩
       | transparent =>
         simp only [accepts, acceptsEncode, acceptsDecode, HasSszMeaning, Bool.and_eq_true,
           Bool.not_eq_true', List.all_eq_true, beq_iff_eq]
@@ -273,6 +278,9 @@ example : accepts (.enum_ (some .union) true [{ fields := [.uint 1] }]) = false 
 /-- union variant with two fields, or with a named field -/
 example : accepts (.enum_ (some .union) false [{ fields := [.uint 1, .uint 1] }]) = false := by decide
 example : accepts (.enum_ (some .union) false [{ fields := [.uint 1], named := true }]) = false := by decide
+/-- tag variants written `V {}` or `V()` are not unit variants: the generated pattern does not type-check -/
+example : accepts (.enum_ (some .tag) false [{ fields := [], named := true }]) = false := by decide
+example : accepts (.enum_ (some .tag) false [{ fields := [], parens := true }]) = false := by decide
 /-- tag variant with a field -/
 example : accepts (.enum_ (some .tag) false [{ fields := [] }, { fields := [.uint 1] }]) = false := by decide
 
